@@ -511,7 +511,9 @@ func c01BuildCLI(tier string) core.Source {
 			}
 		}
 	}
-	f := func(p string, n int, salt uint32) tm.Entry { return tm.File(p, genData(famText, n, salt), 0o644, tm.Past) }
+	f := func(p string, n int, salt uint32) tm.Entry {
+		return tm.File(p, genData(famText, n, salt), 0o644, tm.Past)
+	}
 	src := tm.Tree{f("a", 40, 1), f("b", 1500, 2), tm.D("sub", 0o755, tm.Past), f("sub/c", 10, 3), tm.D("sub/deep", 0o755, tm.Past), f("sub/deep/d", 700, 4)}
 	src2 := tm.Tree{f("second", 33, 5)}
 	return core.FuncSource{N: len(cases), F: func(i int) core.Result {
